@@ -347,6 +347,7 @@ impl Generator
 				let return_type = LLVMVoidTypeInContext(self.context);
 				let function_type =
 					LLVMFunctionType(return_type, std::ptr::null_mut(), 0, 0);
+				make_way_for_intrinsic(self.module, &function_name);
 				let function = LLVMAddFunction(
 					self.module,
 					function_name.as_ptr(),
@@ -384,6 +385,7 @@ impl Generator
 					args.len() as u32,
 					is_var_args,
 				);
+				make_way_for_intrinsic(self.module, &function_name);
 				let function = LLVMAddFunction(
 					self.module,
 					function_name.as_ptr(),
@@ -419,6 +421,7 @@ impl Generator
 					args.len() as u32,
 					0,
 				);
+				make_way_for_intrinsic(self.module, &function_name);
 				let function = LLVMAddFunction(
 					self.module,
 					function_name.as_ptr(),
@@ -430,6 +433,22 @@ impl Generator
 			}
 		});
 		(*function, return_type)
+	}
+}
+
+/// A private function of the program may have the name of an intrinsic.
+/// Its name does not matter, so it is the one to give up the symbol.
+unsafe fn make_way_for_intrinsic(module: LLVMModuleRef, name: &CString)
+{
+	let namesake = LLVMGetNamedFunction(module, name.as_ptr());
+	if !namesake.is_null()
+		&& LLVMGetLinkage(namesake) == LLVMLinkage::LLVMPrivateLinkage
+	{
+		let renamed = format!("{}.fn", name.to_string_lossy());
+		if let Ok(renamed) = CString::new(renamed)
+		{
+			LLVMSetValueName(namesake, renamed.as_ptr());
+		}
 	}
 }
 
